@@ -47,6 +47,14 @@ SIGS = [ds.signature_from_string(("%s" % pre_signature_part("id-r1", public_key=
         for e in (None, CERTS[0], CERTS[2], CERTS[4])]
 
 
+# the document text each item was "parsed from" (the structural checks in _check_signature read it)
+DOCS = {}
+for _i, _iss in enumerate(ISSUERS):
+    for _e in range(4):
+        DOCS[(_i, _e)] = "%s" % samlp.Response(id="id-r1", version="2.0", issuer=saml.Issuer(text=_iss) if _iss is not None else None,
+                                              signature=SIGS[_e])
+
+
 def _kd(use, text):
     return md.KeyDescriptor(use=use, key_info=ds.KeyInfo(x509_data=[ds.X509Data(x509_certificate=ds.X509Certificate(text=text))]))
 
@@ -61,12 +69,13 @@ def _ent(eid, role, keys):
         assertion_consumer_service=[md.AssertionConsumerService(binding=BINDING_HTTP_REDIRECT, location="http://x/acs", index="1")])])
 
 
-def trust(u11: int, u12: int, u21: int, u22: int, issuer: int, signer: int, embedded: int, only_md: bool, e2_is_sp: bool, nkeys1: int):
+def trust(u11: int, u12: int, u21: int, u22: int, issuer: int, signer: int, embedded: int, only_md: bool, e2_is_sp: bool, nkeys1: int,
+          outer: int = 0):
     """SecurityContext._check_signature with a real metadata store holding two entities (each with
     key descriptors of symbolic use), a claimed Issuer, the certificate whose key really signed, an
     optional embedded KeyInfo certificate and the only_use_keys_in_metadata flag."""
     Clock(1000)
-    issuer, signer, embedded = concrete(issuer), concrete(signer), concrete(embedded)
+    issuer, signer, embedded, outer = concrete(issuer), concrete(signer), concrete(embedded), concrete(outer)
     uses = [USES[concrete(u)] for u in (u11, u12, u21, u22)]
     nkeys1 = concrete(nkeys1)
     s1 = InMemoryMetaData(None, "")
@@ -83,14 +92,20 @@ def trust(u11: int, u12: int, u21: int, u22: int, issuer: int, signer: int, embe
     emb = [None, CERTS[0], CERTS[2], CERTS[4]][embedded]
     item = samlp.Response(id="id-r1", version="2.0", issuer=saml.Issuer(text=ISSUERS[issuer]) if ISSUERS[issuer] is not None else None,
                           signature=SIGS[embedded])
+    doc = DOCS[(issuer, embedded)]
     acc = False
     exc = None
     try:
-        acc = SEC._check_signature("<doc/>", item, "urn:oasis:names:tc:SAML:2.0:protocol:Response") is not None
+        # `outer`: the issuer of the enclosing message, which callers such as decrypt_assertions supply;
+        # it may stand in only for a signed element that names no Issuer itself
+        outer_issuer = [None, saml.Issuer(text=E1), saml.Issuer(text=E2)][outer]
+        acc = SEC._check_signature(doc, item, "urn:oasis:names:tc:SAML:2.0:protocol:Response", issuer=outer_issuer) is not None
     except Exception as e:
         exc = e
     # ---- reference
     ent = ISSUER_ENTITY[issuer]
+    if ISSUERS[issuer] is None and outer:
+        ent = outer - 1
     if ent == 0:
         trusted = [CERTS[i] for i in (0, 1)[:nkeys1] if uses[i] in ("signing", None)]
     elif ent == 1:
@@ -113,20 +128,20 @@ def trust(u11: int, u12: int, u21: int, u22: int, issuer: int, signer: int, embe
 
 
 _P = [("u11", "int"), ("u12", "int"), ("u21", "int"), ("u22", "int"), ("issuer", "int"), ("signer", "int"), ("embedded", "int"),
-      ("only_md", "bool"), ("e2_is_sp", "bool"), ("nkeys1", "int")]
+      ("only_md", "bool"), ("e2_is_sp", "bool"), ("nkeys1", "int"), ("outer", "int")]
 CONDITIONS = [
     Cond(name="trust", fn="trust", params=_P,
          pre=["0 <= u11 <= 2", "0 <= u12 <= 2", "0 <= u21 <= 2", "0 <= u22 <= 2", "0 <= issuer < %d" % len(ISSUERS), "0 <= signer < %d" % len(CERTS),
-              "0 <= embedded <= 3", "0 <= nkeys1 <= 2"],
-         partitions={"quick": [{"issuer": i, "signer": s, "u22": 0, "u12": (i + s) % 3, "e2_is_sp": (i + s) % 2 == 0, "nkeys1": 2 if (i + s) % 4 else 0}
+              "0 <= embedded <= 3", "0 <= nkeys1 <= 2", "0 <= outer <= 2"],
+         partitions={"quick": [{"issuer": i, "signer": s, "u22": 0, "u12": (i + s) % 3, "e2_is_sp": (i + s) % 2 == 0, "nkeys1": 2 if (i + s) % 4 else 0, "outer": (i + 2 * s) % 3, "u11": (i * s) % 3}
                                for i in range(len(ISSUERS)) for s in range(len(CERTS))],
-                     "thorough": [{"issuer": i, "signer": s, "only_md": f, "e2_is_sp": p} for i in range(len(ISSUERS)) for s in range(len(CERTS))
-                                  for f in (False, True) for p in (False, True)]},
+                     "thorough": [{"issuer": i, "signer": s, "only_md": f, "e2_is_sp": p, "outer": o} for i in range(len(ISSUERS)) for s in range(len(CERTS))
+                                  for f in (False, True) for p in (False, True) for o in range(3)]},
          timeout={"quick": 600, "thorough": 1800}, path_timeout=60,
          functions=["sigver.SecurityContext._check_signature", "sigver.SecurityContext.verify_signature", "sigver.cert_from_instance/cert_from_key_info/pem_format",
                     "mdstore.MetadataStore.certs", "mdstore.MetaData.certs (extract_certs)", "mdstore.repack_cert", "mdstore.InMemoryMetaData.do_entity_descriptor"],
          bounds="federation of two entities (second one IdP or SP) with 0-2 / 2 key descriptors each of use {signing, encryption, unspecified}; claimed Issuer in {first, second, unknown, absent, "
-                "whitespace-padded first}; actual signing key in {each of the 4 metadata certificates, an embedded-only certificate}; embedded KeyInfo certificate in {none, first entity's, "
+                "whitespace-padded first}; issuer of the enclosing message supplied by the caller {none, first, second}; actual signing key in {each of the 4 metadata certificates, an embedded-only certificate}; embedded KeyInfo certificate in {none, first entity's, "
                 "second entity's, unrelated}; only_use_keys_in_metadata on/off (quick: sampled use assignments)"),
 ]
 
